@@ -13,7 +13,8 @@ def run(prop, tier):
     known = common.load_known(prop)
     units = [dict(fn="unit_gate", kind="delivery gate", known=[e for e in known if "witness" in e.get("match", {})]),
              dict(fn="unit_gate", in_interrupt=True, kind="no delivery inside a handler"),
-             dict(fn="unit_halt", kind="halt wake-up")]
+             dict(fn="unit_halt", kind="halt wake-up"),
+             dict(fn="unit_reti", kind="end of handler (RETI step)")]
     reps = common.run_units("contracts.irq:unit_any", units, budget=900)
     reps += common.run_units("contracts.cpu_lemmas:unit_lemmas", [dict(kind="IR/RETI inverse lemma (with C05)")], budget=300)
     v.absorb(reps, known)
